@@ -642,7 +642,46 @@ func c19Printer(c *Ctx, p *Prog) {
 	resLabelsF := p.Field("storage/benchfmt", "Result", "Labels")
 	fns := p.Funcs("storage/benchfmt")
 	eff := newEffects(p, fns)
+	// the scans of the two label sets: in Print itself or in a helper of the package called from Print
 	mrs := classifyMapRanges(p, eff, fn)
+	callOf := map[*ssa.Function]*ssa.Call{}
+	eachInstr(fn, func(_ *ssa.BasicBlock, in ssa.Instruction) {
+		if call, ok := in.(*ssa.Call); ok {
+			if h := call.Call.StaticCallee(); h != nil && h != fn && h.Pkg == fn.Pkg && len(h.Blocks) > 0 {
+				if _, dup := callOf[h]; dup {
+					callOf[h] = nil // called more than once: not mapped to one site
+				} else {
+					callOf[h] = call
+				}
+			}
+		}
+	})
+	var helpers []*ssa.Function
+	for h, call := range callOf {
+		if call != nil {
+			helpers = append(helpers, h)
+		}
+	}
+	sort.Slice(helpers, func(i, j int) bool { return callOf[helpers[i]].Pos() < callOf[helpers[j]].Pos() })
+	for _, h := range helpers {
+		mrs = append(mrs, classifyMapRanges(p, eff, h)...)
+	}
+	// the ranged map as Print sees it
+	rangedIn := func(mr mapRange) ssa.Value {
+		if mr.Fn == fn {
+			return mr.Range.X
+		}
+		call := callOf[mr.Fn]
+		for i, prm := range mr.Fn.Params {
+			if mr.Range.X == ssa.Value(prm) {
+				return call.Call.Args[i]
+			}
+		}
+		if f, base := loadOfField(mr.Range.X); f != nil && len(mr.Fn.Params) > 0 && base == ssa.Value(mr.Fn.Params[0]) && mr.Fn.Signature.Recv() != nil {
+			return mr.Range.X // a field of the receiver: the same printer
+		}
+		return nil
+	}
 	for _, mr := range mrs {
 		if len(mr.Reasons) == 0 {
 			c.OK(R, mr.Key, p.pos(mr.Pos), "keys collected then sorted: "+strings.Join(mr.Pattern, ", "))
@@ -656,35 +695,71 @@ func c19Printer(c *Ctx, p *Prog) {
 	for i, mr := range mrs {
 		key := fmt.Sprintf("Print:scan#%d:unconditional", i+1)
 		bad := ""
-		for _, f := range factsAt(mr.Loop.Header) {
-			if f.If.Block() == mr.Loop.Header || mr.Loop.Blocks[f.If.Block()] {
-				continue
-			}
-			okGuard := false
-			if bo, ok := f.Cond.(*ssa.BinOp); ok {
-				isLenOfRanged := func(v ssa.Value) bool {
-					call, ok := v.(*ssa.Call)
-					if !ok {
-						return false
+		judge := func(facts []fact, at *ssa.BasicBlock, lp *loopInfo, ranged ssa.Value) {
+			loops := naturalLoops(at.Parent())
+			for _, f := range facts {
+				if lp != nil && (f.If.Block() == lp.Header || lp.Blocks[f.If.Block()]) {
+					continue
+				}
+				// an earlier loop that has run to its end
+				left := false
+				for _, l := range loops {
+					if l.Header == f.If.Block() && !l.Blocks[at] {
+						left = true
 					}
-					bi, ok := call.Call.Value.(*ssa.Builtin)
-					return ok && bi.Name() == "len" && sameValue(call.Call.Args[0], mr.Range.X)
 				}
-				isZero := func(v ssa.Value) bool { k, ok := constInt(v); return ok && k == 0 }
-				isNil := func(v ssa.Value) bool { k, ok := v.(*ssa.Const); return ok && k.Value == nil }
-				switch {
-				case (isLenOfRanged(bo.X) && isZero(bo.Y)) || (isLenOfRanged(bo.Y) && isZero(bo.X)):
-					okGuard = true
-				case (sameValue(bo.X, mr.Range.X) && isNil(bo.Y)) || (sameValue(bo.Y, mr.Range.X) && isNil(bo.X)):
-					okGuard = true
+				if left {
+					continue
+				}
+				// an earlier write that failed: the whole print is abandoned with that error
+				if bo, ok := f.Cond.(*ssa.BinOp); ok && !f.True && bo.Op == token.NEQ && isErrorType(bo.X.Type()) {
+					if k, ok := bo.Y.(*ssa.Const); ok && k.IsNil() {
+						then := f.If.Block().Succs[0]
+						if ret, ok := then.Instrs[len(then.Instrs)-1].(*ssa.Return); ok && len(ret.Results) > 0 && retLast(ret) == bo.X {
+							continue
+						}
+					}
+				}
+				okGuard := false
+				if bo, ok := f.Cond.(*ssa.BinOp); ok && ranged != nil {
+					isLenOfRanged := func(v ssa.Value) bool {
+						call, ok := v.(*ssa.Call)
+						if !ok {
+							return false
+						}
+						bi, ok := call.Call.Value.(*ssa.Builtin)
+						return ok && bi.Name() == "len" && sameValue(call.Call.Args[0], ranged)
+					}
+					isZero := func(v ssa.Value) bool { k, ok := constInt(v); return ok && k == 0 }
+					isNil := func(v ssa.Value) bool { k, ok := v.(*ssa.Const); return ok && k.Value == nil }
+					switch {
+					case (isLenOfRanged(bo.X) && isZero(bo.Y)) || (isLenOfRanged(bo.Y) && isZero(bo.X)):
+						okGuard = true
+					case (sameValue(bo.X, ranged) && isNil(bo.Y)) || (sameValue(bo.Y, ranged) && isNil(bo.X)):
+						okGuard = true
+					}
+				}
+				if !okGuard {
+					bad = p.pos(f.If.Pos())
+					if bad == "" {
+						bad = p.pos(f.Cond.Pos())
+					}
+					if bad == "" {
+						bad = fnName(at.Parent()) + " block " + fmt.Sprint(f.If.Block().Index)
+					}
 				}
 			}
-			if !okGuard {
-				bad = p.pos(f.If.Pos())
-				if bad == "" {
-					bad = p.pos(f.Cond.Pos())
+		}
+		judge(factsAt(mr.Loop.Header), mr.Loop.Header, mr.Loop, mr.Range.X)
+		if mr.Fn != fn {
+			call := callOf[mr.Fn]
+			var ranged ssa.Value
+			for j, prm := range mr.Fn.Params {
+				if mr.Range.X == ssa.Value(prm) {
+					ranged = call.Call.Args[j]
 				}
 			}
+			judge(factsAt(call.Block()), call.Block(), nil, ranged)
 		}
 		c.Check(bad == "", R, key, p.pos(mr.Pos), "the scan runs for every result", "the scan over the labels runs only under a condition (at "+bad+") other than the scanned map being non-empty: a result that drops one label and gains another has as many labels as the model, the removed label is never printed as 'k:', and a reader of the output keeps it on all later results")
 	}
@@ -698,8 +773,10 @@ func c19Printer(c *Ctx, p *Prog) {
 			continue
 		}
 		overModel := false
-		if f, _ := loadOfField(mr.Range.X); f == labelsF {
-			overModel = true
+		if rv := rangedIn(mr); rv != nil {
+			if f, _ := loadOfField(rv); f == labelsF {
+				overModel = true
+			}
 		}
 		for _, o := range outs {
 			collected := false
